@@ -71,6 +71,17 @@ def gen_cfg(rng, dt, L, kind=None, op=None):
         k = len(cfg["azimuths"])
         cfg["azimuths"] = np.sort(rng.choice(np.arange(0, 180, 5.0), size=k, replace=False))
         cfg["azimuths_dtype"] = gen.vector_dtype_form(rng, cfg["azimuths"])[1]
+    # centre frequencies in whole hertz, handed over as a list of ints / an integer array / float32 (same values)
+    if rng.random() < 0.15:
+        whole = np.unique(np.maximum(1.0, np.round(cfg["fcs"])))
+        if whole.size >= 2 and whole[-1] <= cfg["fcs"].max():
+            cfg["fcs"] = whole
+            cfg["fcs_dtype"] = gen.vector_dtype_form(rng, whole)[1]
+    if kind == "rotdpp" and rng.random() < 0.3:
+        cfg["percentile"] = float(rng.choice([0., 16., 50., 84., 100., 12.5, 99.5]))
+        # (not as float16 / float32: np.percentile interpolates in the precision of the q it is given - numpy's semantics)
+        cfg["percentile_type"] = gen.scalar_form(rng, cfg["percentile"], allow=["float", "int", "float64", "int64", "int32", "int16", "uint8",
+                                                                                    "int8", "zero-dim-array", "zero-dim-array"])[1]
     if kind == "single" and rng.random() < 0.3:
         cfg["azimuth"] = float(rng.choice([0., 30., 45., 90., 135., 200., 12.5, -30., 400.]))
         cfg["azimuth_type"] = gen.scalar_form(rng, cfg["azimuth"])[1]
@@ -81,7 +92,8 @@ def make_settings(cfg):
     import hvsrpy
     common = dict(window_type_and_width=("tukey", cfg["alpha"]),
                   smoothing=dict(operator=cfg["op"], bandwidth=cfg["b"],
-                                 center_frequencies_in_hz=np.array(cfg["fcs"], copy=True)),
+                                 center_frequencies_in_hz=(gen.vector_dtype_form(None, cfg["fcs"], cfg["fcs_dtype"])[0] if cfg.get("fcs_dtype")
+                                                           else np.array(cfg["fcs"], copy=True))),
                   fft_settings=None if cfg["user_n"] is None else dict(n=int(cfg["user_n"])))
     if cfg.get("fft_n_none"):
         common["fft_settings"] = dict(n=None)
@@ -98,8 +110,9 @@ def make_settings(cfg):
     if cfg.get("azimuths_dtype"):
         azs = gen.vector_dtype_form(None, azs, cfg["azimuths_dtype"])[0]
     if k == "rotdpp":
+        pp = gen.scalar_form(None, cfg["percentile"], cfg["percentile_type"])[0] if cfg.get("percentile_type") else cfg["percentile"]
         return hvsrpy.HvsrTraditionalRotDppProcessingSettings(
-            ppth_percentile_for_rotdpp_computation=cfg["percentile"],
+            ppth_percentile_for_rotdpp_computation=pp,
             azimuths_in_degrees=azs, **common)
     if k == "azimuthal":
         return hvsrpy.HvsrAzimuthalProcessingSettings(azimuths_in_degrees=azs, **common)
